@@ -251,6 +251,8 @@ class RowEval:
         for key, val in self.P.fact_order:
             if not reads_values(key, self.R):
                 continue
+            if key[0] == "op" and key[1] == "is" and len(key) == 4 and NONE in key[2:]:
+                continue                                    # `m is None` asks whether the object exists, not what it holds
             x = key[1] if key[0] == "truth" else None
             if key[0] == "op" and key[1] == "gt" and len(key) == 4 and key[3] in (("c", 0), ("c", 0.0)):
                 x = key[2]                                  # count > 0
@@ -469,9 +471,12 @@ class RowEval:
                 if b[0] == "call" and b[1] == "np.take_along_axis" and p[1] == 0:
                     return T
                 raise Unknown("column of something that is not a two-column table")
-            if (rows[0] == "call" and rows[1] in ("np.arange", "range") and len(rows[2]) == 1 and not rows[3]) or \
-                    (rows[0] == "idx" and rows[1] == ("g", "np.r_")):
+            arange = lambda t_: (t_[0] == "call" and t_[1] in ("np.arange", "range") and len(t_[2]) == 1 and not t_[3]) or \
+                (t_[0] == "idx" and t_[1] == ("g", "np.r_"))  # noqa
+            if arange(rows):
                 return self._at_pos(self.ev(b, q), self.ev(p, q))
+            if arange(p) and self.ev(b, q) == ("R",) and self.ev(rows, q)[0] in ("pos", "bad"):
+                return ("bad", "row and column index exchanged: element (position, row number) of the matrix")
             raise Unknown(f"index `{show(self.P.norm(i))[:80]}`")
         if i[0] == "tup" and len(i) == 2:
             i = i[1]
